@@ -175,6 +175,8 @@ func c07Trees(c *Ctx) []node {
 		nested = append(nested, genStacks(1, 1, 3, atoms[:2], []string{"PA", "CA", "AS"}, kinds)...)
 		nested = append(nested, genStacks(1, 1, 2, []node{{T: "leaf"}, {T: "CCL"}}, []string{"CCS", "S"}, kinds)...) // Condition aliases
 	}
+	// a Condition inside a Condition above a Stack (no way down: the outer expression is no Stack)
+	nested = append(nested, genStacks(1, 1, 2, atoms[:2], []string{"C2S", "C2A"}, kinds)...)
 	// pointers to interface variables (leaves) and to Stack variables (descendable, and re-pointable)
 	nested = append(nested, genStacks(1, 1, 1, atoms[:1], []string{"PI", "CPI", "PS", "CPS"}, kinds)...)
 	elems := append(append([]node{}, atoms...), nested...)
@@ -356,6 +358,71 @@ func c07Wide(c *Ctx) (trees []node, paths [][][]int) {
 	return
 }
 
+// c07Dynamic: a nested stack whose validity policy depends on its content ("at least two elements") is
+// frozen, walked, thawed (by the explicit form and by the argument-less toggle form), changed so that the
+// policy's answer flips, frozen again and walked again: at every stage Traverse answers as the stepwise
+// descent through what is there now (the harness knows the policy's answer: it wrote the policy).
+func c07Dynamic(c *Ctx) int {
+	n := 0
+	for _, thaw := range []string{"SetReadOnly(false)", "SetReadOnly()", "ReadOnly()"} {
+		for _, viaCond := range []bool{false, true} {
+			for _, startLen := range []int{1, 2} {
+				inner := stackage.Or()
+				inner.SetValidityPolicy(func(...any) error {
+					if inner.Len() < 2 {
+						return errCat
+					}
+					return nil
+				})
+				for i := 0; i < startLen; i++ {
+					inner.Push(fmt.Sprintf("e%d", i))
+				}
+				var el any = inner
+				if viaCond {
+					el = stackage.Cond("k", stackage.Eq, inner)
+				}
+				root := stackage.And().Push("p0", el)
+				stage := func(name string) {
+					for _, idx := range []int{0, 1, 2} {
+						gv, gok := root.Traverse(1, idx)
+						var wv any
+						wok := false
+						if inner.Len() >= 2 { // the policy's answer right now
+							wv, wok = inner.Index(idx)
+						}
+						n++
+						c.Transitions.Add(1)
+						if gok != wok || gv != wv {
+							c.Violation("dynamic-validity:"+opClass(thaw), fmt.Sprintf("nested stack (policy: at least two elements; now %d; thawed by %s; below a Condition: %v) at stage %q: Traverse(1,%d)=(%v,%v), the stepwise descent gives (%v,%v)", inner.Len(), thaw, viaCond, name, idx, gv, gok, wv, wok), nil, 0)
+						}
+					}
+				}
+				stage("built")
+				inner.SetReadOnly(true)
+				stage("frozen")
+				stage("frozen, asked again")
+				switch thaw {
+				case "SetReadOnly(false)":
+					inner.SetReadOnly(false)
+				case "SetReadOnly()":
+					inner.SetReadOnly()
+				default:
+					inner.ReadOnly()
+				}
+				if startLen == 1 {
+					inner.Push("more")
+				} else {
+					inner.Pop()
+				}
+				stage("thawed and changed")
+				inner.SetReadOnly(true)
+				stage("frozen again")
+			}
+		}
+	}
+	return n
+}
+
 func c07Paths(maxLen, lo, hi int) [][]int {
 	var out [][]int
 	var rec func(cur []int)
@@ -462,6 +529,7 @@ func init() {
 			}
 		}
 		c.Bound["wide_trees"] = len(wide)
+		c.Bound["traversals_around_a_policy_whose_answer_changes"] = c07Dynamic(c)
 		c.Bound["paths_on_self_containing_structures"] = c07Cyclic(c)
 		c.Traces.Store(c.Transitions.Load())
 		c.Evals.Store(c.Transitions.Load())
